@@ -793,4 +793,108 @@ Section Sound.
       destruct (draw_n 0 (N.of_nat (length (o_any o)) - 1) tp) as [i t]. cbn [fst] in Hr. apply Htail.
       unfold any_allowed. apply pick_allowed; [lia|exact Hne].
   Qed.
+
+  (* ---- oneofs: which member is set, and which can be --------------------------------------------- *)
+  Definition not_member_of (f : field) (oi : nat) : Prop := forall j, f_shape f = Member j -> j <> oi.
+
+  Lemma state_set_nonmember fs : forall ss idx i f v oi, nth_error fs idx = Some f -> not_member_of f oi ->
+    oneof_state fs (set_nth ss idx v) i oi = oneof_state fs ss i oi.
+  Proof.
+    induction fs as [|g fs IH]; intros ss idx i f v oi Hn Hnm; [destruct idx; discriminate|].
+    destruct ss as [|s ss]; [reflexivity|]. destruct idx as [|idx]; cbn [nth_error] in Hn; cbn [set_nth oneof_state].
+    - injection Hn as ->. destruct (f_shape f) as [| |j|] eqn:Es; try reflexivity.
+      assert (Nat.eqb j oi = false) as E by (apply Nat.eqb_neq; apply Hnm; exact Es). rewrite E.
+      destruct v, s; reflexivity.
+    - rewrite (IH ss idx (S i) f v oi Hn Hnm). reflexivity.
+  Qed.
+
+  Lemma state_clear_other fs : forall ss i oi' oi, oi' <> oi ->
+    oneof_state fs (clear_oneof fs ss oi') i oi = oneof_state fs ss i oi.
+  Proof.
+    induction fs as [|g fs IH]; intros ss i oi' oi Hne; [destruct ss; reflexivity|].
+    destruct ss as [|s ss]; [reflexivity|]. cbn [clear_oneof oneof_state]. rewrite (IH ss (S i) oi' oi Hne).
+    destruct (f_shape g) as [| |j|]; try reflexivity.
+    destruct (Nat.eqb j oi') eqn:E1; [|reflexivity]. apply Nat.eqb_eq in E1. subst j.
+    assert (Nat.eqb oi' oi = false) as E by (apply Nat.eqb_neq; exact Hne). rewrite E. destruct s; reflexivity.
+  Qed.
+
+  Lemma state_clear_same fs : forall ss i oi, oneof_state fs (clear_oneof fs ss oi) i oi = None.
+  Proof.
+    induction fs as [|g fs IH]; intros ss i oi; [destruct ss; reflexivity|].
+    destruct ss as [|s ss]; [reflexivity|]. cbn [clear_oneof oneof_state]. rewrite IH.
+    destruct (f_shape g) as [| |j|]; try reflexivity.
+    destruct (Nat.eqb j oi) eqn:E1; [reflexivity|]. destruct s; reflexivity.
+  Qed.
+
+  Lemma state_set_member fs : forall ss idx i f v oi, nth_error fs idx = Some f -> f_shape f = Member oi ->
+    (idx < length ss)%nat -> oneof_state fs ss i oi = None ->
+    oneof_state fs (set_nth ss idx (VSome v)) i oi = Some (i + idx)%nat.
+  Proof.
+    induction fs as [|g fs IH]; intros ss idx i f v oi Hn Hs Hl Hst; [destruct idx; discriminate|].
+    destruct ss as [|s ss]; [cbn in Hl; lia|]. destruct idx as [|idx]; cbn [nth_error] in Hn; cbn [set_nth oneof_state].
+    - injection Hn as ->. rewrite Hs, Nat.eqb_refl. f_equal. lia.
+    - cbn [oneof_state] in Hst. cbn [length] in Hl.
+      assert (Hrec : oneof_state fs ss (S i) oi = None).
+      { destruct (f_shape g) as [| |j|]; try exact Hst. destruct s; try exact Hst. destruct (Nat.eqb j oi); [discriminate|exact Hst]. }
+      rewrite (IH ss idx (S i) f v oi Hn Hs ltac:(lia) Hrec).
+      destruct (f_shape g) as [| |j|]; try (f_equal; lia). destruct s; try (f_equal; lia).
+      destruct (Nat.eqb j oi); [discriminate|f_equal; lia].
+  Qed.
+
+  Lemma clear_length fs : forall ss oi, length (clear_oneof fs ss oi) = length ss.
+  Proof. induction fs as [|g fs IH]; intros [|s ss] oi; cbn [clear_oneof length]; auto. Qed.
+
+  Lemma clear_nth fs : forall ss oi k s', nth_error (clear_oneof fs ss oi) k = Some s' ->
+    exists s, nth_error ss k = Some s /\ (s' = s \/ (s' = VNil /\ exists g, nth_error fs k = Some g /\ f_shape g = Member oi)).
+  Proof.
+    induction fs as [|g fs IH]; intros ss oi k s'.
+    - cbn [clear_oneof]. intros H. exists s'. split; [exact H|left; reflexivity].
+    - destruct ss as [|s ss]; cbn [clear_oneof]; [destruct k; discriminate|].
+      destruct k as [|k]; cbn [nth_error].
+      + intros E. injection E as <-. exists s. split; [reflexivity|].
+        destruct (f_shape g) as [| |j|] eqn:Es; auto. destruct (Nat.eqb j oi) eqn:E; auto.
+        apply Nat.eqb_eq in E. subst j. right. split; [reflexivity|]. exists g. split; [reflexivity|exact Es].
+      + intros E. destruct (IH ss oi k s' E) as (s0 & A & B). exists s0. split; [exact A|].
+        destruct B as [B|(B1 & g0 & B2 & B3)]; [left; exact B|right; split; [exact B1|exists g0; split; assumption]].
+  Qed.
+
+  (* [oneof_reach] along a list of fields *)
+  Lemma reach_app r a : forall b i oi acc,
+    oneof_reach o ann r (a ++ b) i oi acc = oneof_reach o ann r b (i + length a) oi (oneof_reach o ann r a i oi acc).
+  Proof.
+    induction a as [|f a IH]; intros b i oi acc; cbn [app length oneof_reach]; [f_equal; lia|].
+    destruct (f_shape f) as [| |j|]; try (rewrite IH; f_equal; lia).
+    destruct (Nat.eqb j oi); rewrite IH; f_equal; lia.
+  Qed.
+
+  Lemma reach_incl r fs : forall i oi acc acc', incl acc acc' ->
+    incl (oneof_reach o ann r fs i oi acc) (oneof_reach o ann r fs i oi acc').
+  Proof.
+    induction fs as [|f fs IH]; intros i oi acc acc' H; cbn [oneof_reach]; [exact H|].
+    destruct (f_shape f) as [| |j|]; try (apply IH; exact H).
+    destruct (Nat.eqb j oi); [|apply IH; exact H]. apply IH. destruct (forced o f); [apply incl_refl|].
+    intros x [Hx|Hx]; [left; exact Hx|right; apply H; exact Hx].
+  Qed.
+
+  Lemma reach_split_app r fs : forall i oi acc1 acc2 x, In x (oneof_reach o ann r fs i oi (acc1 ++ acc2)) ->
+    In x (oneof_reach o ann r fs i oi acc1) \/ In x acc2.
+  Proof.
+    induction fs as [|f fs IH]; intros i oi acc1 acc2 x; cbn [oneof_reach]; [apply in_app_or|].
+    destruct (f_shape f) as [| |j|]; try apply IH.
+    destruct (Nat.eqb j oi); [|apply IH]. destruct (forced o f); [auto|].
+    intros H. apply (IH (S i) oi (_ :: acc1) acc2 x). exact H.
+  Qed.
+
+  Lemma reach_split r fs i oi acc x : In x (oneof_reach o ann r fs i oi acc) ->
+    In x acc \/ In x (oneof_reach o ann r fs i oi []).
+  Proof. intros H. apply (reach_split_app r fs i oi [] acc x) in H. tauto. Qed.
+
+  (* the member set after a pass is one a pass from scratch can leave *)
+  Lemma reach_closed r fs oi st0 st :
+    In st0 (None :: oneof_reach o ann r fs 0 oi [None]) -> In st (oneof_reach o ann r fs 0 oi [st0]) ->
+    In st (oneof_reach o ann r fs 0 oi [None]).
+  Proof.
+    intros [<-|H0] H; [exact H|]. apply reach_split in H. destruct H as [[<-|[]]|H]; [exact H0|].
+    eapply reach_incl; [|exact H]. intros y [].
+  Qed.
 End Sound.
